@@ -44,6 +44,11 @@ def extraction(unit, repo):
                     pnames[it.name] = it.kw
                 elif it.kw in ("struct", "enum", "type") and it.name in src.get("prefix_types", []):
                     pnames[it.name] = "type"
+            # names that live inside a flattened `mod` are listed explicitly
+            for nm in src.get("prefix_fns", []):
+                pnames[nm] = "fn"
+            for nm in src.get("prefix_types", []):
+                pnames[nm] = "type"
         const_ctx_by_file.setdefault(src["file"], [])
         const_ctx_by_file[src["file"]] = X.all_const_items(top, ftoks)
         opts_by_sel = {}
